@@ -86,6 +86,16 @@ CLAIMS = {
              'non-empty topics with recognize(topic) and uses its cache only for empty topics.',
         note='Not decided: rebinding sequences as such. Known finding D12 (client enforces literal 16) is listed in known_findings.json.',
         ref='DESIGN.md section 5 C17'),
+    'C12': dict(
+        technique='expression extraction from MIR + exhaustive small-state lemma check over the extracted formulas; edge-dominance gate rules (static analysis)',
+        text='The arithmetic/Boolean expressions of Counter::{is_available}, CounterInner::{inc,dec,available} are extracted from MIR (path enumeration) and three lemmas are '
+             'checked over all 5^5 small states of the extracted formulas (dec that makes capacity available wakes the waiter; is_available == available; inc/dec symmetric, '
+             'guard drop passes the stored size); ready() cannot report readiness without awaiting capacity unless a streamed publish is in progress or capacity is available; '
+             'call() holds the guard across the inner call; the streaming flag is only set for PUBLISH and never cleared on a chunk request; both v5 dispatchers test '
+             'inflight.len() >= negotiated Receive Maximum before reserving, refuse with Pub_3_3_4_7/_9 (0x93) without reserving; limit origins and middleware wiring.',
+        note='Not decided: maximum overlap under every interleaving; that reading resumes (waker delivery is liveness). Known finding D2 (SUBSCRIBE/UNSUBSCRIBE ids counted '
+             'against Receive Maximum) is listed in known_findings.json.',
+        ref='DESIGN.md section 5 C12'),
 }
 
 NA_REASONS = {}
